@@ -323,7 +323,7 @@ def model(A, fn, frame, b, t, st, name):
             return ret(res)
         A.require(st, fn, b, "index", "index within bounds", [None])
         return ret(None)
-    if matches(n, "slice::get", "slice::get_mut", "slice::first", "slice::last", "slice::first_mut", "slice::last_mut", "Vec::get", "Vec::get_mut", "Vec::pop",
+    if matches(n, "slice::get", "slice::get_mut", "slice::first_mut", "slice::last_mut", "Vec::get", "Vec::get_mut", "Vec::pop",
                "str::get", "slice::split_first", "slice::split_last", "str::strip_suffix", "str::strip_prefix", "str::rsplit_once", "str::split_once"):
         if matches(n, "slice::get", "slice::get_mut", "Vec::get", "Vec::get_mut") or n in ("core::slice::get", "core::slice::get_mut"):
             s = seq_of(A, st, A.arg(st, frame, t, 0))
@@ -569,6 +569,35 @@ def model(A, fn, frame, b, t, st, name):
             sl = Lin.sym(s)
             st.store.add(sl.sub(v[2][0]).addc(1))
             return ret(("opt", None, ("tuple", (("int", sl), TOP)), "Option"))
+        return ret(("opt", None, None, "Option"))
+    if matches(n, "BinaryHeap::new"):
+        return ret(("seq", Lin.const(0), frozenset(), fresh_ident(A)))
+    if matches(n, "BinaryHeap::len"):
+        s = seq_of(A, st, A.arg(st, frame, t, 0))
+        return ret(("int", s[1]) if s is not None else None)
+    if matches(n, "BinaryHeap::push", "BinaryHeap::pop", "BinaryHeap::peek", "slice::first", "slice::last") or n in ("core::slice::first", "core::slice::last"):
+        k = A.recv_key(st, frame, t, 0)
+        s = seq_of(A, st, A.arg(st, frame, t, 0))
+        m = n.rsplit("::", 1)[-1]
+        if s is None or k is None:
+            if m in ("push", "pop"):
+                A.havoc_call(fn, frame, b, t, st, [])
+            return ret(("opt", None, None, "Option") if m != "push" else None)
+        if m == "push":
+            A.write_key(st, k, ("seq", s[1].addc(1), frozenset(), fresh_ident(A)))
+            return ret(None)
+        if m in ("peek", "first", "last"):
+            # Some(_) implies the container is not empty
+            if st.store.entails(Lin.const(1).sub(s[1])):
+                return ret(("opt", "Some", None, "Option"))
+            return ret(("opt", None, None, "Option", (Lin.const(1).sub(s[1]),)))
+        # pop
+        if st.store.entails(Lin.const(1).sub(s[1])):
+            A.write_key(st, k, ("seq", s[1].addc(-1), frozenset(), fresh_ident(A)))
+            return ret(("opt", "Some", None, "Option"))
+        ns = A.newsym(st, "len", 0, LEN_MAX)
+        st.store.add(Lin.sym(ns).sub(s[1]))
+        A.write_key(st, k, ("seq", Lin.sym(ns), frozenset(), fresh_ident(A)))
         return ret(("opt", None, None, "Option"))
     if matches(n, "Iterator::position", "Iterator::rposition"):
         v = A.deref(st, A.arg(st, frame, t, 0))
